@@ -206,6 +206,10 @@ fn decode(b: &mut Bits, c: &Code) -> Dec {
         if code - count < first {
             return Dec::Sym(c.symbol[(index + (code - first)) as usize]);
         }
+        if len as u32 >= c.max_len {
+            // every code of the (incomplete) set is at most max_len bits long: this bit pattern is unused
+            return Dec::Unused;
+        }
         index += count;
         first += count;
         first <<= 1;
